@@ -182,12 +182,17 @@ ERefVal(D, s, n) ==
 -----------------------------------------------------------------------------
 (* Contexts: static and dynamic spaces.                                    *)
 
+\* the space whose members an ItemSpace of p replicates: p itself, or the space the
+\* parameter formula names ({"base": <space>})
+PfBase(D, p) ==
+    IF p \in DOMAIN D.pf /\ "base" \in DOMAIN D.flib[D.pf[p]] THEN D.flib[D.pf[p]].base ELSE p
+
 RECURSIVE BaseOf(_, _, _)
 \* static space whose members the (possibly dynamic) space <<p, steps>> replicates
 BaseOf(D, p, steps) ==
     IF Len(steps) = 0 THEN p
     ELSE LET st == steps[1] IN
-         IF st[1] = "i" THEN BaseOf(D, p, Tail(steps))
+         IF st[1] = "i" THEN BaseOf(D, PfBase(D, p), Tail(steps))
          ELSE BaseOf(D, Append(p, st[2]), Tail(steps))
 
 CtxBase(D, ctx) == BaseOf(D, ctx[1], ctx[2])
@@ -197,7 +202,7 @@ StepsOK(D, p, steps) ==
     ELSE IF steps[1][1] = "i"
          THEN /\ p \in D.sp /\ p \in DOMAIN D.pf
               /\ Len(steps[1][3]) = Len(D.flib[D.pf[p]].ps)
-              /\ StepsOK(D, p, Tail(steps))
+              /\ StepsOK(D, PfBase(D, p), Tail(steps))
          ELSE StepsOK(D, Append(p, steps[1][2]), Tail(steps))
 CtxExists(D, ctx) == StepsOK(D, ctx[1], ctx[2])
 
@@ -205,7 +210,7 @@ CtxExists(D, ctx) == StepsOK(D, ctx[1], ctx[2])
 RECURSIVE ArgOf(_, _, _, _)
 ArgOf(D, p, steps, name) ==      \* returns Obj or NoObj
     IF Len(steps) = 0 THEN NoObj
-    ELSE LET inner == ArgOf(D, IF steps[1][1] = "c" THEN Append(p, steps[1][2]) ELSE p,
+    ELSE LET inner == ArgOf(D, IF steps[1][1] = "c" THEN Append(p, steps[1][2]) ELSE PfBase(D, p),
                              Tail(steps), name) IN
          IF inner # NoObj THEN inner
          ELSE IF steps[1][1] = "i" /\ p \in DOMAIN D.pf
@@ -224,7 +229,7 @@ RootOf(ctx) ==                 \* <<static path of the root's base, steps up to 
 DynRebind(D, ctx, r, v) ==
     IF v[1] \notin {"sp", "ce"} \/ r.mode = "absolute" \/ Len(ctx[2]) = 0 THEN v
     ELSE LET root == RootOf(ctx)
-             rb   == root[1]                \* static base path of the root item
+             rb   == PfBase(D, root[1])     \* static base path of the root item
              full == v[2] IN
          IF v[3] = <<>> /\ IsPrefix(rb, full)
          THEN LET rel == SubSeq(full, Len(rb) + 1, Len(full))
